@@ -39,7 +39,19 @@ def mkdt(tok):
         return dt.replace(tzinfo=None)
     if rep.startswith('o'):
         return dt.astimezone(timezone(timedelta(minutes=int(rep[1:]))))
+    if rep == 'z':
+        return dt.astimezone(_dst_zone())      # ONE tzinfo object for every such datetime (aware arithmetic between them is wall-clock)
     return dt
+
+
+_ZONE = []
+
+
+def _dst_zone():
+    if not _ZONE:
+        from zoneinfo import ZoneInfo
+        _ZONE.append(ZoneInfo('America/New_York'))      # clocks jump at 2020-03-08T07:00Z and 2020-11-01T06:00Z
+    return _ZONE[0]
 
 
 def us_of(dt):
@@ -221,6 +233,28 @@ def check(run):
             lines.append(f'ti.mk {tok(c[0])} {tok(c[1])}')
     run.run_cases('random-us-tz', lines, impl, spec,
                   tag=lambda ln, a: ['tz:' + ('naive' if '@n' in ln else 'offset' if '@o' in ln else 'utc')])
+
+    # both end points in ONE daylight-saving zone, intervals straddling a clock change: Python subtracts two datetimes that share
+    # a tzinfo object as wall-clock readings, so `end - start` is off by the shift while comparison, hash and membership use
+    # the instants (seeded change C06-s3 compared (start, elapsed) in __eq__).  The same instants are asked about in UTC.
+    jumps = [us_of(datetime(2020, 3, 8, 7, tzinfo=timezone.utc)), us_of(datetime(2020, 11, 1, 6, tzinfo=timezone.utc))]
+    hour = 3600 * 10**6
+    lines = []
+    for j in jumps:
+        marks = [j - 2 * hour, j - hour, j - 1, j, j + 1, j + hour, j + 2 * hour, j + 3 * hour]
+        for _ in range(run.scale(120, 3000)):
+            a = sorted(rng.sample(marks, 2))
+            b = rng.choice([a, sorted(rng.sample(marks, 2)), [a[0], a[1] + rng.choice([-hour, hour])]])
+            b = sorted(b)
+            reps = rng.choice([('@z', ''), ('', '@z'), ('@z', '@z'), ('@z', '@o-300')])
+            op = rng.choice(BINOPS)
+            lines.append(f'ti.{op} {a[0]}{reps[0]} {a[1]}{reps[0]} {b[0]}{reps[1]} {b[1]}{reps[1]}')
+            if rng.random() < 0.3:
+                lines.append(f'ti.{rng.choice(["contains", "intersectsDt"])} {a[0]}@z {a[1]}@z {rng.choice(marks)}{rng.choice(["", "@z", "@n"])}')
+            if rng.random() < 0.2:
+                lines.append(f'ti.mk {a[0]}@z {a[1]}@z')
+    run.run_cases('daylight-saving-zone', lines, impl, spec,
+                  tag=lambda ln, a: ['dst:' + ln.split()[0] + ':' + (a if len(a) < 6 else 'val')])
 
     # far from the epoch: years 1 … 9999, end points a microsecond or two apart (float timestamps lose the
     # microsecond before ~1700 and after ~2240: seeded change C06-n2 compared .timestamp() floats)
